@@ -70,7 +70,11 @@ theorem route_config {p : Bytes} (h : route p = .config) : cfgPrefix.isPrefixOf 
       · cases h
       · split at h
         · assumption
-        · split at h <;> cases h
+        · split at h
+          · cases h
+          · split at h
+            · cases h
+            · split at h <;> cases h
 
 /-! ### the HTTP layer keeps the invariant; a request that is not answered 200 changes nothing -/
 
@@ -78,6 +82,7 @@ theorem route_config {p : Bytes} (h : route p = .config) : cfgPrefix.isPrefixOf 
 def Resp.rejected : Resp → Bool
   | .okGet _ _ => false
   | .okWrite => false
+  | .okAdapt _ => false
   | _ => true
 
 theorem changeResp_rejected {c : ChangeRes} (h : (changeResp c).rejected = true) : c ≠ .ok ∧ c ≠ .same := by
@@ -114,12 +119,48 @@ theorem handleConfig_rejected {env : Env} {r : Req} {p : Bytes} {s : State} (hi 
         have := changeResp_rejected h
         exact change_rejected hi hp this.1 this.2
 
+theorem underConfig_cfg : underConfig (slash :: cfgKey) := ⟨[], by decide⟩
+
+theorem loadResp_rejected {c : ChangeRes} (h : (loadResp c).rejected = true) : c ≠ .ok ∧ c ≠ .same := by
+  cases c <;> simp_all [loadResp, changeResp, Resp.rejected]
+
+theorem handleLoad_inv {env : Env} {r : Req} {s : State} (hi : Inv s) : Inv (handleLoad env r s).1 := by
+  unfold handleLoad
+  split
+  · exact hi
+  · split
+    · exact hi
+    · exact change_inv hi underConfig_cfg
+
+theorem handleLoad_rejected {env : Env} {r : Req} {s : State} (hi : Inv s)
+    (h : (handleLoad env r s).2.rejected = true) : (handleLoad env r s).1 = s := by
+  unfold handleLoad at h ⊢
+  split
+  · rfl
+  · next hm =>
+    simp only [hm, if_false] at h
+    split
+    · rfl
+    · next b hb =>
+      simp only [hb] at h
+      have := loadResp_rejected h
+      exact change_rejected hi underConfig_cfg this.1 this.2
+
+/-- /adapt never touches the state -/
+theorem handleAdapt_pure (env : Env) (r : Req) (s : State) : (handleAdapt env r s).1 = s := by
+  unfold handleAdapt
+  split
+  · rfl
+  · split <;> rfl
+
 theorem serve_inv {env : Env} {r : Req} {s : State} (hi : Inv s) : Inv (serve env r s).1 := by
   unfold serve
   split
   · exact hi
   · exact hi
   · next hr => exact handleConfig_inv hi (underConfig_of_prefix (route_config hr))
+  · exact handleLoad_inv hi
+  · rw [handleAdapt_pure]; exact hi
   · split
     · exact hi
     · exact hi
@@ -137,6 +178,10 @@ theorem serve_rejected {env : Env} {r : Req} {s : State} (hi : Inv s)
   · next hr =>
     simp only [hr] at h
     exact handleConfig_rejected hi (underConfig_of_prefix (route_config hr)) h
+  · next hr =>
+    simp only [hr] at h
+    exact handleLoad_rejected hi h
+  · exact handleAdapt_pure env r s
   · next hr =>
     simp only [hr] at h
     split
